@@ -507,6 +507,8 @@ where
             E::Err(c) => Ev::Err(Status::new(Code::from(*c), "scripted body error")),
         })
         .collect();
+    // alternate between a body with the default is_end_stream() and an accurate one
+    vcommon::body::set_eager_eos(EOS_FLIP.fetch_add(1, std::sync::atomic::Ordering::SeqCst) % 2 == 1);
     let (body, pae) = ScriptBody::new(evs);
     let pae_out = pae.clone();
     let polls = Arc::new(AtomicUsize::new(0));
@@ -652,6 +654,7 @@ where
             E::Err(c) => Ev::Err(Status::new(Code::from(*c), "scripted body error")),
         })
         .collect();
+    vcommon::body::set_eager_eos(EOS_FLIP.fetch_add(1, std::sync::atomic::Ordering::SeqCst) % 2 == 1);
     let (body, _pae) = ScriptBody::new(evs);
     let polls = Arc::new(AtomicUsize::new(0));
     let body = Guard { inner: body, polls, cap: (inp.evs.len() + fuel + 8) * (ops.len() + 1) };
@@ -1866,6 +1869,7 @@ fn gen_prost_case(r: &mut Rng) -> (Input, &'static str) {
     (inp, name)
 }
 
+static EOS_FLIP: std::sync::atomic::AtomicUsize = std::sync::atomic::AtomicUsize::new(0);
 fn main() {
     if std::env::args().any(|a| a == "--worker") {
         worker_main();
@@ -1879,12 +1883,15 @@ fn main() {
         let v: Value = serde_json::from_str(&std::fs::read_to_string(f).unwrap()).unwrap();
         let inp = Input::from_json(&v["input"]);
         let kind = v["kind"].as_str().unwrap_or("replay").to_string();
-        if v["input"].get("ops").is_some() {
-            case_api(&mut out, &kind, &inp, &ops_from_json(&v["input"]["ops"]));
-        } else {
-            case(&mut out, &kind, &inp);
+        // twice: once over a body with the default is_end_stream(), once over an accurate one
+        for _ in 0..2 {
+            if v["input"].get("ops").is_some() {
+                case_api(&mut out, &kind, &inp, &ops_from_json(&v["input"]["ops"]));
+            } else {
+                case(&mut out, &kind, &inp);
+            }
         }
-        out.finish(IMPORTS, "replay of one stored case", json!({}));
+        out.finish(IMPORTS, "replay of one stored case (under both is_end_stream() conventions of the scripted body)", json!({}));
         return;
     }
 
